@@ -400,7 +400,7 @@ UNIT = dict(
     driver='drivers/soh.cpp',
     names=NAMES, ghost=GHOST,
     assumptions=[
-        'std::map / std::vector / std::string / std::shared_ptr / std::function are abstract models: keys are identities, each map tracks one focus key chosen nondeterministically (a fact proved for the focus key holds for every key), other entries are arbitrary; iterators are positions with a validity generation, erase() invalidates iterators to the erased element',
+        'std::map / std::vector / std::string / std::shared_ptr / std::function are abstract models: keys are identities, each map tracks one focus key chosen nondeterministically (a fact proved for the focus key holds for every key), other entries are arbitrary; iterators are positions with a validity generation, erase() invalidates iterators to the erased element; vector<pair<string, shared_ptr<X>>> (not used by the current source; present so that a rewrite that copies the map out is decided instead of undecided) is a size plus the copy of the focus entry, assign(first, last) from objectMap needs mapLock and may throw',
         'emplace on an existing key destroys the node it built from its argument (libstdc++ behaviour: the passed shared_ptr is released)',
         'the user predicate (std::function) may throw at any invocation and returns an arbitrary result',
         'ENABLE_TRIPWIRE is not defined (default build)',
